@@ -45,7 +45,7 @@ import wake_extract  # noqa: E402
 def pre(repo):
     """translator step (facts no trace shows): the manager's wake loops wait without bound for an
     announced waiter and wake exactly the number asked for"""
-    wake_extract.check(repo)
+    return wake_extract.check(repo)
 
 
 SPEC = {
